@@ -405,13 +405,19 @@ func stUpdateAlloc(h *Hist, r *mon.Rand) *Call {
 	if b, ok := in["add_blobber_id"].(string); ok {
 		c.Meta["blobber"] = b
 	}
-	c.After = func(h *Hist, o *TxnObs) {
+	probe := ""
+	if rm, ok := in["remove_blobber_id"].(string); ok && rm != "" {
+		c.Meta["removed_blobber"] = rm
+		probe = h.stPartialProbe(id, rm, "replace", false)
+		c.Meta["partial_pass"] = probe != ""
+	}
+	c.After = stProbeAfter(probe, func(h *Hist, o *TxnObs) {
 		if o.Outcome == "success" && a != nil && newOwner != nil {
 			if _, set := in["owner_id"]; set {
 				a.Owner = newOwner
 			}
 		}
-	}
+	})
 	return c
 }
 
@@ -497,7 +503,9 @@ func stFinalize(h *Hist, r *mon.Rand) *Call {
 	c := stCall(h, r, "finalize_allocation", from, map[string]string{"allocation_id": id}, uint64(r.Intn(2)*r.Intn(1000)))
 	c.Mut = mut
 	c.Meta["alloc"], c.Meta["closes"] = id, "finalize"
-	c.After = stCloseAfter(a, "finalize")
+	probe := h.stPartialProbe(id, "", "finalize", false)
+	c.Meta["partial_pass"] = probe != ""
+	c.After = stProbeAfter(probe, stCloseAfter(a, "finalize"))
 	if mut == "second-close" {
 		c.After = nil
 	}
@@ -547,7 +555,9 @@ func stCancel(h *Hist, r *mon.Rand) *Call {
 	c := stCall(h, r, "cancel_allocation", from, map[string]string{"allocation_id": id}, 0)
 	c.Mut = mut
 	c.Meta["alloc"], c.Meta["closes"] = id, "cancel"
-	c.After = stCloseAfter(a, "cancel")
+	probe := h.stPartialProbe(id, "", "cancel", false)
+	c.Meta["partial_pass"] = probe != ""
+	c.After = stProbeAfter(probe, stCloseAfter(a, "cancel"))
 	if mut == "second-close" {
 		c.After = nil
 	}
